@@ -186,17 +186,19 @@ func treeStr(t spokast.Tree) string {
 func projectParse(o parseObs) string {
 	switch {
 	case o.hang:
-		return "HANG ## -"
+		return "HANG ## - ## -"
 	case o.pnc != "":
-		return "PANIC ## -"
+		return "PANIC ## - ## -"
 	case o.err != nil:
 		m := parseLineRe.FindStringSubmatch(o.err.Error())
 		if m == nil {
-			return "R " + hx(o.err.Error()) + " ## -"
+			return "R " + hx(o.err.Error()) + " ## - ## -"
 		}
-		return fmt.Sprintf("E %s %s ## -", m[1], hx(m[3]))
+		return fmt.Sprintf("E %s %s ## - ## -", m[1], hx(m[3]))
 	}
-	return "T " + treeStr(o.tree) + " ## " + hx(o.tree.String())
+	// last field: every tree the parser returns is expected to lie in the class the formatter theorems cover
+	// (the model evaluates the verified decision procedure cst_wf_b on its canonical layout and prints 1 or 0)
+	return "T " + treeStr(o.tree) + " ## " + hx(o.tree.String()) + " ## 1"
 }
 
 // ---- direct oracles (property statements evaluated on the implementation alone) ----
@@ -613,14 +615,14 @@ func syntaxCmd(args []string) error {
 		if !ok {
 			wk.stop()
 			wk = nil
-			fmt.Fprintln(bi, "CRASH ## CRASH ## -")
+			fmt.Fprintln(bi, "CRASH ## CRASH ## - ## -")
 			fail("C08", src, "lexing/parsing this input crashed or hung the process (a fault outside the parsing goroutine cannot be recovered)")
 			fail("C16", src, "lexing this input crashed or hung the process")
 			return
 		}
 		parts := strings.SplitN(resp, "\t", 3)
 		if len(parts) != 3 {
-			fmt.Fprintln(bi, "BADWORKERLINE ## - ## -")
+			fmt.Fprintln(bi, "BADWORKERLINE ## - ## - ## -")
 			return
 		}
 		fmt.Fprintln(bi, parts[0])
@@ -827,7 +829,7 @@ func syntaxWorker(args []string) error {
 		}
 		b, derr := hex.DecodeString(strings.TrimSpace(line))
 		if derr != nil {
-			fmt.Fprintln(out, "BADHEX ## - ## -\t\t0,0,0,0,-")
+			fmt.Fprintln(out, "BADHEX ## - ## - ## -\t\t0,0,0,0,-")
 			out.Flush()
 			continue
 		}
